@@ -566,10 +566,12 @@ func (srv *Server) serveUDP(l net.PacketConn) error {
 			return err
 		}
 		if len(m) < headerSize {
+			// The callback comes first: once the buffer is back in the pool
+			// a later run of this Server may read into it.
+			srv.MsgInvalidFunc(m, ErrShortRead)
 			if cap(m) == srv.UDPSize {
 				srv.udpPool.Put(m[:srv.UDPSize])
 			}
-			srv.MsgInvalidFunc(m, ErrShortRead)
 			continue
 		}
 		wg.Add(1)
